@@ -32,7 +32,7 @@ fn circuit(g: usize) -> Shape {
 }
 
 fn honest<G: AffineRepr + 'static>(shape: &Shape, seed: u64, cap: usize) -> Option<(std::rc::Rc<std::cell::RefCell<Shared<G>>>, R1CSProof<G>, PedersenGens<G>, BulletproofGens<G>)> {
-    let pc = PedersenGens::<G>::default();
+    let pc = pc_for::<G>(&shape.name, seed);
     let bp = BulletproofGens::<G>::new(cap, 1);
     let shr = new_shared::<G>(shape, &Default::default(), Box::new(PlainVals::<G::ScalarField>::new(HashMap::new(), seed)));
     let (p, _) = prove_shape(shape, &shr, &pc, &bp, seed);
